@@ -47,7 +47,35 @@ def run(ctx):
         if res.get("cases") != r.emitted:
             raise_incon(ctx, "%s: harness replayed %s of %d cases" % (cfg, res.get("cases"), r.emitted))
         ctx.absorb(res, cfg)
+    # code -> spec: random rings recorded from the real code, validated line by line by TLC
+    n = 120 if ctx.tier == "quick" else 1500
+    trace = ctx.path("c14_trace.ndjson")
+    res = ctx.run_harness("c14", "^TestRecord$", env={"VERIF_TRACE": trace, "VERIF_N": n}, timeout=900)
+    bad = validate_lines(ctx, "tokenranges", "TokenRangesTrace", trace, "LineOK")
+    if bad is not None:
+        res.setdefault("mismatches", [])
+        res["mismatches"] = (res.get("mismatches") or []) + [{
+            "sig": "record:%s:line-rejected" % bad.get("mode", "?"), "case": bad,
+            "got": "answers recorded from the real code", "want": "OwnedKeys/RangeKeys of TokenRanges.tla"}]
+    ctx.absorb(res, "record/validate")
     return "model_checking"
+
+
+def validate_lines(ctx, family, module, trace, inv, chunk=400):
+    """Validate an ndjson trace whose lines are independent cases with <module>.tla (state variable l =
+    line number, invariant <inv> per line). Returns the first rejected line (dict) or None."""
+    import verif
+    lines = [l for l in open(trace) if l.strip()]
+    for off in range(0, len(lines), chunk):
+        part = ctx.path("part_%d.ndjson" % off)
+        open(part, "w").writelines(lines[off:off + chunk])
+        r = ctx.tlc(family, module, extra_files={part: "trace.ndjson"}, workers=1, deadlock=False, timeout=900)
+        if r.violated == inv:
+            m = re.findall(r"/\\ l = (\d+)", r.log) or re.findall(r"l = (\d+)", r.log)
+            idx = int(m[-1]) if m else 1
+            return json.loads(lines[off + idx - 1])
+        ctx.require_tlc_ok(r, module)
+    return None
 
 
 def raise_incon(ctx, why):
